@@ -28,10 +28,10 @@ CHECKS = {
    text="At every state of the bounded space: in-check for both colours, game_ending and the check/mate annotation of every legal move are compared with the model, using long-lived generators; plus a single-generator verdict pass, twin passes, the terminal family and the enumerated family in which a checking double step can only be answered by capturing en passant.",
    ref="DESIGN.md §4 C06"),
  "C12": dict(tech="explicit-state exploration evaluating state invariants in every visited and transient state",
-   text="Representation invariants are evaluated on a public-observer snapshot in every visited state and in every transient state reached by a pseudo-legal (king left in check) move between apply and undo; the long games of C04 are unwound with the rights compared at every ply.",
+   text="Representation invariants are evaluated on a public-observer snapshot in every visited state and in every transient state reached by a pseudo-legal (king left in check) move between apply and undo; the long games of C04 are unwound with the rights compared at every ply. Round 6: every move the engine itself lists is applied and the invariants evaluated on the result.",
    ref="DESIGN.md §4 C12"),
  "C13": dict(tech="explicit-state lock-step exploration; labels compared with an independent SAN writer",
-   text="At every state every label produced by the engine is compared with the model's SAN and labels are checked pairwise distinct. Also every tree seed and its one-ply neighbours with 98 and 99 plies on the half-move clock (never merged), the ep-only-reply family and a seed where only the knight promotion mates.",
+   text="At every state every label produced by the engine is compared with the model's SAN and labels are checked pairwise distinct. Also every tree seed and its one-ply neighbours with 98 and 99 plies on the half-move clock (never merged), the ep-only-reply family and a seed where only the knight promotion mates. Round 6: the 218-move nine-queen position and its colour-swapped image (move lists longer than 128).",
    ref="DESIGN.md §4 C13"),
  "C19": dict(tech="explicit-state lock-step exploration; render / read-back round trip on every legal move",
    text="At every state every legal move's coordinate text is compared with the model's, checked distinct, read back through the (hook-exposed) bridge reader and re-applied; the resulting position must equal the original move's. Also the family of castle-shaped rook / queen moves (e1/e8 to the c- or g-file while castling rights exist). Round 5: trees at the end of long games (ply counts past 255) with an en-passant capture pending.",
@@ -46,7 +46,7 @@ CHECKS.update({
    text="For every square and every subset of the full rook / bishop rays (edge squares included, a superset of the 102,400 + 5,248 relevant-mask cases) times 3 off-ray noise patterns, for queens on the rook and bishop products with the other ray set empty / full, and for knights and kings with every subset of enemy pieces on their targets, the real get_attack_targets answer is compared with a ray walk; union semantics with friendly blockers are compared on every walked position. Also: for each of the 64 key bits an arrangement whose position key differs from a base arrangement in exactly that bit (GF(2) construction, verified on real boards), all put to one generator in both orders, so that an attack cache comparing only part of the key is exposed. Round 5: generators constructed inside rayon pools of 29 sizes answer the rook / bishop / queen queries on every square.",
    ref="DESIGN.md §4 C11", note="Only the magic constants drawn by this build are examined (thorough rebuilds further draws). No answer can come from the attack cache (generator renewed on any key repeat)."),
  "C16": dict(tech="explicit-state search over (position, half-move clock) with live boards + boundary-preloaded tree walks, step-local clock oracle",
-   text="Every transition of the tree-seed walk, of walks from boards preloaded with half-move clocks 47..101 and ply counts 0..511, and of a BFS/DFS to fixpoint over (position, half-move clock <= 104) on closed locked-pawn graphs (games up to 311 plies) is executed on the real board; the clock step, its undo and the draw verdict (clock >= 100) are compared with the rule in every state; games of 255..1100 plies are unwound with both clocks compared at every ply.",
+   text="Every transition of the tree-seed walk, of walks from boards preloaded with half-move clocks 47..101 and ply counts 0..511, and of a BFS/DFS to fixpoint over (position, half-move clock <= 104) on closed locked-pawn graphs (games up to 311 plies) is executed on the real board; the clock step, its undo and the draw verdict (clock >= 100) are compared with the rule in every state; games of 255..1100 plies are unwound with both clocks compared at every ply. Round 6: one long-lived Game is polled after every ply along all six-ply king paths from boards pre-loaded with 93..99 plies.",
    ref="DESIGN.md §4 C16", note="Mated/stalemated states at clock >= 100 are not judged. Overflow checks are on in the harness build so a wrap aborts and is reported."),
  "C18": dict(tech="complete enumeration of the evaluation's table domain, of walked positions, of the material lattice extremes and of terminal position x remaining depth",
    text="Every piece-square cell in both contexts and both colours, every walked position against its colour-swapped rotated image, every legal one-side material vector at best squares against a minimal opponent, and every collected mated / stalemated position at remaining depth 0..255 are evaluated on the real functions. Terminal positions are first put to the same generator with 100 plies on the half-move clock (not judged), then scored with a fresh clock. Round 5: every lattice board is compared with its colour-swapped rotated image, on best and on worst cells.",
@@ -82,7 +82,7 @@ CHECKS.update({
 
 CHECKS.update({
  "C14": dict(tech="exhaustive enumeration of inputs per state (all 4096 coordinate pairs, generated string sets, command-line lines) against the rules model",
-   text="For every tree seed and child position (grandchildren in thorough): all 4096 coordinate pairs, every legal label, every label of the other side / parent position, every near-miss image of a legal label under a fixed operator list, and junk are submitted to the real Game API; every label the engine prints is also typed through the real stdin reader (fd 0 replaced by a pipe) and executed; accepted inputs must yield exactly the model successor, clocks and history entry, rejected ones must leave the full snapshot and history untouched. Thorough: the real `chess pvp` binary is driven over stdin along scripted games and its printed boards are compared with the model. Round 5: members of the ep-discovery, ep-only-reply and castle-shaped families are states too.",
+   text="For every tree seed and child position (grandchildren in thorough): all 4096 coordinate pairs, every legal label, every label of the other side / parent position, every near-miss image of a legal label under a fixed operator list, and junk are submitted to the real Game API; every label the engine prints is also typed through the real stdin reader (fd 0 replaced by a pipe) and executed; accepted inputs must yield exactly the model successor, clocks and history entry, rejected ones must leave the full snapshot and history untouched. Thorough: the real `chess pvp` binary is driven over stdin along scripted games and its printed boards are compared with the model. Round 5: members of the ep-discovery, ep-only-reply and castle-shaped families are states too. Round 6: the many-queens positions are states too.",
    ref="DESIGN.md §4 C14", note="Strings that denote a legal move only under a lenient reading are not judged. The Game object is reused across inputs by taking accepted moves back; any mismatch after taking back discards the object."),
 })
 
